@@ -116,11 +116,23 @@ func (c *Ctx) eval(x Expr) CVal {
 	case *EBin:
 		switch x.Op {
 		case "&&":
-			return CVal{T: tAnd(c.evalBool(x.L), c.evalBool(x.R))}
+			l := c.evalBool(x.L)
+			if l.S == "false" {
+				return CVal{T: tFalse}
+			}
+			return CVal{T: tAnd(l, c.evalBool(x.R))}
 		case "||":
-			return CVal{T: tOr(c.evalBool(x.L), c.evalBool(x.R))}
+			l := c.evalBool(x.L)
+			if l.S == "true" {
+				return CVal{T: tTrue}
+			}
+			return CVal{T: tOr(l, c.evalBool(x.R))}
 		case "==>":
-			return CVal{T: tImp(c.evalBool(x.L), c.evalBool(x.R))}
+			l := c.evalBool(x.L)
+			if l.S == "false" {
+				return CVal{T: tTrue}
+			}
+			return CVal{T: tImp(l, c.evalBool(x.R))}
 		case "<==>":
 			return CVal{T: tEq(c.evalBool(x.L), c.evalBool(x.R))}
 		case "==", "!=":
@@ -135,7 +147,7 @@ func (c *Ctx) eval(x Expr) CVal {
 			return CVal{T: t}
 		case "<", "<=", ">", ">=":
 			l, r := c.evalInt(x.L), c.evalInt(x.R)
-			return CVal{T: Term{app(x.Op, l.S, r.S), sBool}}
+			return CVal{T: tCmp(x.Op, l, r)}
 		case "+", "-":
 			l, r := c.evalInt(x.L), c.evalInt(x.R)
 			return CVal{T: Term{app(x.Op, l.S, r.S), sInt}}
@@ -263,9 +275,9 @@ func (c *Ctx) selField(b CVal, f string, x Expr) CVal {
 	ft := si.fields[k].typ
 	if isPtr {
 		h := c.st.heapGet(e, fieldHeapName(si, k), arrSort(si.fields[k].sort))
-		return CVal{T: tSelect(h, b.T), GT: ft}
+		return CVal{T: e.fold(tSelect(h, b.T)), GT: ft}
 	}
-	return CVal{T: si.get(b.T, k), GT: ft}
+	return CVal{T: e.fold(si.get(b.T, k)), GT: ft}
 }
 
 func (c *Ctx) evalCall(x *ECall) CVal {
@@ -293,6 +305,12 @@ func (c *Ctx) evalCall(x *ECall) CVal {
 			cfail("ite takes three arguments")
 		}
 		cnd := c.evalBool(x.Args[0])
+		if cnd.S == "true" {
+			return c.eval(x.Args[1])
+		}
+		if cnd.S == "false" {
+			return c.eval(x.Args[2])
+		}
 		a, b := c.eval(x.Args[1]), c.eval(x.Args[2])
 		if a.T.Sort != b.T.Sort {
 			cfail("ite branches of different sorts in %s", exprString(x))
@@ -325,6 +343,17 @@ func (c *Ctx) evalCall(x *ECall) CVal {
 		a, b := c.evalInt(x.Args[0]), c.evalInt(x.Args[1])
 		return CVal{T: e.mulTerm(a, b)}
 	}
+	if uf, ok := e.p.cs.UFs[x.Fn]; ok {
+		if len(x.Args) != len(uf.Params) {
+			cfail("%s: wrong number of arguments", x.Fn)
+		}
+		var as []string
+		for _, a := range x.Args {
+			as = append(as, c.evalInt(a).S)
+		}
+		e.usedUF[x.Fn] = true
+		return CVal{T: Term{app("uf_"+x.Fn, as...), sInt}}
+	}
 	if uf, ok := e.p.ufs[x.Fn]; ok {
 		if len(x.Args) != len(uf.args) {
 			cfail("%s: wrong number of arguments", x.Fn)
@@ -352,11 +381,14 @@ func (c *Ctx) evalCall(x *ECall) CVal {
 		if v.GT == nil {
 			v.GT = e.p.typeByText(p.Type)
 		}
+		v.T = e.def("a_"+p.Name, v.T) // call by value: the argument term is shared, not copied
 		vars[p.Name] = v
 	}
 	// pure functions see only their parameters (and the heap)
 	sub := &Ctx{e: e, st: c.st, old: c.old, vars: vars, depth: c.depth + 1}
-	return sub.eval(pf.Body)
+	r := sub.eval(pf.Body)
+	r.T = e.def("r_"+x.Fn, r.T)
+	return r
 }
 
 func (e *Enc) goConst(name string) (CVal, bool) {
